@@ -26,3 +26,4 @@ import TLX.Props.Translated.Main2
 import TLX.Props.Translated.Keylog
 import TLX.Props.Translated.QuicSess3
 import TLX.Props.Translated.Decrypt2
+import TLX.Props.Translated.Opts
